@@ -184,16 +184,46 @@ fn main_case(src: &mut Src, ctx: &mut Ctx) -> Result<(), String> {
     let m = gen_rawlib(src, &opts());
     oracle(&m, ctx)
 }
+/// Deep hierarchies: a chain of 30-200 cells, each instantiating the one below, listed top-down, bottom-up or
+/// shuffled, on top of a small generated library (no depth is too deep for the format)
+fn deep_case(src: &mut Src, ctx: &mut Ctx) -> Result<(), String> {
+    let mut m = gen_rawlib(src, &RawGenOpts { max_cells: 2, ..opts() });
+    let base = m.cells.len();
+    let depth = *src.pick(&[30usize, 31, 32, 33, 34, 35, 48, 63, 64, 65, 66, 100, 127, 128, 129, 130, 200]);
+    let template: Vec<RShape> = m.cells.iter().find(|c| c.has_layout && !c.shapes.is_empty()).map(|c| vec![c.shapes[0].clone()]).unwrap_or_default();
+    for d in 0..depth {
+        let lower: Option<usize> = if d > 0 { Some(base + d - 1) } else { (0..base).find(|i| m.cells[*i].has_layout) };
+        let insts = lower.map(|t| vec![RInst { name: "i0".into(), target: t, loc: (src.signed(500), src.signed(500)), o: G::Orient::from_index(src.index(8)), none_angle: src.bool() }]).unwrap_or_default();
+        m.cells.push(RCell { name: format!("level_{}", d), has_layout: true, shapes: if d % 7 == 0 { template.clone() } else { vec![] }, insts, annotations: vec![], abs: None });
+    }
+    let mut chain: Vec<usize> = (base..base + depth).collect();
+    let how = src.below(3);
+    match how {
+        0 => chain.reverse(), // top-down
+        1 => {}               // bottom-up
+        _ => src.shuffle(&mut chain),
+    }
+    if src.bool() {
+        m.listing.extend(chain);
+    } else {
+        chain.extend(m.listing.clone());
+        m.listing = chain;
+    }
+    ctx.label(&format!("chain of {} cells listed {}", if depth <= 32 { "<= 32" } else if depth <= 64 { "33-64" } else { "> 64" }, ["top-down", "bottom-up", "shuffled"][how as usize]));
+    oracle(&m, ctx)
+}
 fn run(run: &mut Run) {
     run.rule("G-rawlib layout libraries: 1-5 cells forming a DAG in shuffled listing order, instances in all eight orientations (angle None vs Some(0)), rectangles with any corner order, histogram / U-shaped / 45-degree / star polygons, Manhattan paths, nets in mixed case, 1-5 layers with Drawing/Label/Pin/Obstruction/Other/Named purposes and arbitrary numbers, all four units; own shapes of a cell in disjoint windows. Oracle: export succeeds, exported paths and labels checked directly on the GDSII (exact geometry), re-import equal per cell as multisets. Non-trivial = named polygon with bounding-box centre outside, a path, or a non-identity instance; distinct by hash of the model.");
     run.assume("cell order, rectangle corner order, rectangle-shaped polygons coming back as rectangles, None vs Some(0) angles, annotations (not exported) and instance names are not compared");
     run.assume("'No valid label location' for a library containing a named non-rectilinear polygon is the documented refusal");
     run.min_nontrivial = 200;
     run.explore("roundtrip", run.tier.pick(400_000, 5_000_000), 900, &main_case);
+    run.explore("deep-chains", run.tier.pick(6_000, 60_000), 900, &deep_case);
 }
 fn case(sub: &str) -> Option<Box<CaseFn<'static>>> {
     match sub {
         "roundtrip" => Some(Box::new(main_case)),
+        "deep-chains" => Some(Box::new(deep_case)),
         _ => None,
     }
 }
